@@ -582,6 +582,14 @@ class FnTr:
             if len(vals) == 1:
                 s, c, t = self.tr(vals[0])
                 return s, f"(Py.arange {c})", ("List", "Int")
+        if f == "np.where" and len(args) == 3:
+            s0, c, tc = self.tr(args[0]); s1, a, ta = self.tr(args[1]); s2, b, tb = self.tr(args[2])
+            if tc == ("List", "Bool") and ta == ("List", "Int") and tb == ("List", "Int"):
+                return s0 + s1 + s2, f"(Py.where_ {c} {a} {b})", ("List", "Int")
+        if f == "len" and len(args) == 1 and isinstance(args[0], ast.Call) and ast.unparse(args[0].func) == "np.unique":
+            s0, c, t = self.tr(args[0].args[0])
+            if t == ("List", "Int"):
+                return s0, f"(Py.uniqueCount {c})", "Int"
         if f == "np.unique" and len(args) == 1:
             raise Untranslatable("np.unique outside len(...)")
         if f == "np.all" and len(args) == 1:
@@ -771,6 +779,12 @@ class FnTr:
     def s_For(self, s):
         if s.orelse:
             raise Untranslatable("for-else")
+        live = self.live_iteration(s)
+        if live is not None:
+            return live
+        return self.s_For_plain(s)
+
+    def s_For_plain(self, s):
         st, it, tit = self.tr(s.iter)
         et = self.elem_type(tit)
         self.bind_target_types(s.target, et)
@@ -787,6 +801,42 @@ class FnTr:
             self.aux.append((nm, f"{show_type(et)} → {self.Vt} → Py.Res {self.Vt} {show_type(parse_type(self.spec.ret))}", code))
             return self.chain(st, f"Py.forEach ({nm} {self.args_for(code)}) {it} v")
         return self.chain(st, f"Py.forEach (fun x (v : {self.Vt}) => {body} {upd}) {it} v")
+
+    def live_iteration(self, s):
+        """`for x in A` / `for i, x in enumerate(A)` whose body stores into `A[...]`: Python reads the elements of `A` LIVE, one per
+        iteration; a snapshot of `A` at loop entry would be wrong.  Lowered to an index loop that reads `A[i]` at the start of every
+        iteration (the length is fixed at entry: arrays cannot grow, and `append` on the iterated list is rejected)."""
+        it = s.iter
+        enum = isinstance(it, ast.Call) and ast.unparse(it.func) == "enumerate" and len(it.args) == 1
+        arr = it.args[0] if enum else it
+        if not isinstance(arr, ast.Name):
+            return None
+        name = arr.id
+        stores = any(isinstance(n, ast.Subscript) and isinstance(n.ctx, ast.Store) and isinstance(n.value, ast.Name) and n.value.id == name
+                     for b in s.body for n in ast.walk(b))
+        grows = any(isinstance(n, ast.Call) and isinstance(n.func, ast.Attribute) and n.func.attr in ("append", "extend", "pop", "insert")
+                    and isinstance(n.func.value, ast.Name) and n.func.value.id == name for b in s.body for n in ast.walk(b))
+        rebinds = any(isinstance(n, ast.Name) and isinstance(n.ctx, ast.Store) and n.id == name for b in s.body for n in ast.walk(b))
+        if grows or rebinds:
+            raise Untranslatable(f"{self.spec.lean}: the loop body resizes / rebinds `{name}` while iterating over it")
+        if not stores:
+            return None
+        if enum:
+            if not (isinstance(s.target, ast.Tuple) and len(s.target.elts) == 2 and all(isinstance(x, ast.Name) for x in s.target.elts)):
+                raise Untranslatable("enumerate target")
+            ivar, xvar = s.target.elts[0].id, s.target.elts[1].id
+        else:
+            if not isinstance(s.target, ast.Name):
+                raise Untranslatable("loop target")
+            ivar, xvar = self.fresh("Int", "k"), s.target.id
+        read = ast.parse(f"{xvar} = {name}[{ivar}]").body[0]
+        loop = ast.For(ast.Name(ivar, ast.Store()), ast.parse(f"range(len({name}))").body[0].value, [read] + list(s.body), [], None)
+        for nd in ast.walk(loop):
+            if not hasattr(nd, "lineno"):
+                nd.lineno = nd.col_offset = nd.end_lineno = nd.end_col_offset = 0
+        if ivar not in self.vars and ivar not in self.extra_vars:
+            self.vars[ivar] = "Int"
+        return self.s_For_plain(loop)
 
     def args_for(self, code):
         """arguments of a hoisted definition: the callbacks, and the fuel only if the code uses it (nested `while`, calls)"""
@@ -943,6 +993,15 @@ spec(lean="sort_nodes_impl", module="AlgoSort", file="swcgeom/core/swc_utils/nor
            "new_pids": "List Int", "new_id": "Int", "first_root": "Int", "s": "List (Int × Int)", "old_id": "Int", "new_pid": "Int",
            "id2idx": "Dict Int Int", "indices": "List Int", "new_ids": "List Int"},
      ret="((List Int) × (List Int)) × (List Int)", fuel=True)
+
+
+spec(lean="get_dsu", module="AlgoCheckers", file="swcgeom/core/swc_utils/base.py", func="get_dsu",
+     params=["ids", "pids"],
+     vars={"ids": "List Int", "pids": "List Int", "dsu": "List Int", "id2idx": "Dict Int Int", "flag": "Bool", "i": "Int", "p": "Int"},
+     ret="List Int", fuel=True,
+     subst={"df[names.pid]": ("v.pids", "List Int"), "df[names.id]": ("v.ids", "List Int"), "len(df)": ("(Py.len v.ids)", "Int")},
+     skip_stmts=["names = get_names(names)"],
+     doc="`swcgeom/core/swc_utils/base.py::get_dsu` (the two DataFrame columns are the parameters `ids`, `pids`)")
 
 
 def regenerate(modules=None):
